@@ -272,6 +272,9 @@ func (env *specEnv) evalIdent(e *SExpr) sval {
 	if g, ok := gs.ghost[e.Name]; ok {
 		return sval{g, fv.ghostTypes[e.Name]}
 	}
+	if key, ok := fv.declaredGhost(env.pkg, e.Name); ok {
+		return mathVal(fv.ghost0(env.cur, key))
+	}
 	if obj := env.pkg.Scope().Lookup(e.Name); obj != nil {
 		switch o := obj.(type) {
 		case *types.Const:
@@ -456,6 +459,18 @@ func (env *specEnv) evalCall(e *SExpr) sval {
 		n := *env
 		n.cur = fv.lockSnaps[nv.Int64()-1]
 		return n.eval(args[1])
+	case "iter":
+		// state at the head of the innermost enclosing loop iteration (heap and
+		// ghost reads only; local variables keep their current values)
+		if len(fv.iterSnaps) == 0 {
+			env.fail(e, "iter() used outside an iteration clause")
+		}
+		n := *env
+		if n.gst == nil {
+			n.gst = env.cur
+		}
+		n.cur = fv.iterSnaps[len(fv.iterSnaps)-1]
+		return n.eval(args[0])
 	case "len", "cap":
 		v := env.eval(args[0])
 		if v.typ != nil {
@@ -573,6 +588,15 @@ func (env *specEnv) evalCall(e *SExpr) sval {
 		fv.declarePow2()
 		return mathVal(smt.App(smt.Int, "pow2", v.t))
 	}
+	if v, ok := env.specBuiltinGhost(name, e, args); ok {
+		return v
+	}
+	if v, ok := env.specBuiltinRad(name, e, args); ok {
+		return v
+	}
+	if v, ok := env.specBuiltinJSON(name, e, args); ok {
+		return v
+	}
 	// conversions to integer types are identities on mathematical values
 	if t, ok := basicTypes[name]; ok && len(args) == 1 {
 		v := env.eval(args[0])
@@ -613,7 +637,7 @@ func (env *specEnv) evalCall(e *SExpr) sval {
 		if pf.Rec {
 			return env.callRecPure(pf, args)
 		}
-		inner := &specEnv{fv: fv, cur: env.cur, old: env.old, vars: map[string]sval{}, pkg: env.pkg, self: env.self}
+		inner := &specEnv{fv: fv, cur: env.cur, old: env.old, vars: map[string]sval{}, pkg: env.pkg, self: env.self, lockedSt: env.lockedSt}
 		for i, p := range pf.Params {
 			av := env.eval(args[i])
 			_, ty := env.sortOfName(p.Type)
@@ -734,6 +758,12 @@ func (fv *funcVerifier) newEnv(cur, old *State) *specEnv {
 // setupSpec binds the function's own contract.
 func (fv *funcVerifier) setupSpec(st *State) {
 	fv.spec = fv.prog.Specs.Funcs[fv.fi.Key]
+	if fv.spec != nil && fv.spec.Mode == "seq" {
+		// "mode seq": the objects this function calls into are reachable only
+		// through a lock this function holds (or it runs before any other thread
+		// exists), so locked(e) in a callee's contract denotes the pre-call state.
+		fv.opt.SeqCalls = true
+	}
 }
 
 func (fv *funcVerifier) ownEnv(cur *State) *specEnv {
@@ -835,10 +865,40 @@ func (fv *funcVerifier) innerMember(st *State, m smt.Term, mt *types.Map, r smt.
 		smt.Eq(smt.Select(smt.Select(fv.heapGet(st, val), m), k), r))))
 }
 
+// declaredGhost resolves a package-level ghost variable declared with "//@ ghostvar name".
+func (fv *funcVerifier) declaredGhost(pkg *types.Package, name string) (string, bool) {
+	if pkg == nil || !fv.prog.Specs.Ghosts[ShortPkg(pkg.Path())+"."+name] {
+		return "", false
+	}
+	key := "gh:" + ShortPkg(pkg.Path()) + "." + name
+	fv.regHeap(key, smt.Arr(smt.Int, smt.Int))
+	return key, true
+}
+
 func (env *specEnv) modTargets(list []*SExpr) []modTarget {
 	fv := env.fv
 	var out []modTarget
 	for _, e := range list {
+		if e.Op == "ident" {
+			if key, ok := fv.declaredGhost(env.pkg, e.Name); ok {
+				out = append(out, modTarget{ghostKey: key, ref: smt.IntLit(0)})
+				continue
+			}
+			if ks := fv.builtinGhostGroup(e.Name); ks != nil {
+				for _, k := range ks {
+					out = append(out, modTarget{ghostKey: k, ref: smt.IntLit(0)})
+				}
+				continue
+			}
+		}
+		if e.Op == "call" && len(e.Args) == 2 && e.Args[0].Op == "ident" && e.Args[0].Name == "rad_attrs" {
+			fv.radDecls()
+			pkt := env.eval(e.Args[1]).t
+			for _, k := range radAttrKeys {
+				out = append(out, modTarget{ghostKey: k, ref: pkt})
+			}
+			continue
+		}
 		inner := false
 		if e.Op == "call" && len(e.Args) == 2 && e.Args[0].Op == "ident" && e.Args[0].Name == "inner" {
 			inner = true
@@ -1200,10 +1260,24 @@ func (fv *funcVerifier) callWithSpecSig(st *State, call *ast.CallExpr, sig *type
 		fv.assert(st, "requires", key+":"+r.String(), call.Pos(), env.evalBool(r))
 	}
 	// locked(e) in the callee's postconditions refers to the state right after the callee acquired
-	// its receiver's mutex: the pre-call state with the owned fields forgotten and the lock invariants assumed
+	// its receiver's mutex: the pre-call state with the owned fields forgotten and the lock invariants
+	// assumed (monitor model). In "mode seq" (the receiver is reachable only under a lock the caller
+	// holds) it is the pre-call state itself, and the callee's lock invariants are proof obligations.
 	var lockedSt *State
 	if recvType != nil && specMentionsLocked(sp) {
-		lockedSt = fv.simulateLock(st, recv, recvType)
+		if fv.opt.SeqCalls {
+			if n, ok := derefNamed(recvType); ok && n.Obj().Pkg() != nil {
+				if ts := fv.prog.Specs.Types[ShortPkg(n.Obj().Pkg().Path())+"."+n.Obj().Name()]; ts != nil {
+					ienv := &specEnv{fv: fv, cur: pre, old: pre, vars: map[string]sval{}, pkg: n.Obj().Pkg()}
+					for _, inv := range ts.Invs {
+						fv.assert(st, "requires", key+":lockinv."+inv.Name, call.Pos(), ienv.evalInv(sval{recv, recvType}, inv.E))
+					}
+				}
+			}
+			lockedSt = pre.clone()
+		} else {
+			lockedSt = fv.simulateLock(st, recv, recvType)
+		}
 	}
 	fv.applyModifies(st, env, sp)
 	post := *env
@@ -1280,20 +1354,20 @@ func (fv *funcVerifier) callIfaceSpec(st *State, call *ast.CallExpr, im *types.F
 func (fv *funcVerifier) callFuncValueSpec(st *State, call *ast.CallExpr, args []smt.Term) ([]smt.Term, bool) {
 	sel, ok := ast.Unparen(call.Fun).(*ast.SelectorExpr)
 	if !ok {
-		return nil, false
+		return fv.callNamedFuncTypeSpec(st, call, args)
 	}
 	s, ok := fv.info.Selections[sel]
 	if !ok || s.Kind() != types.FieldVal {
-		return nil, false
+		return fv.callNamedFuncTypeSpec(st, call, args)
 	}
 	n, ok := derefNamed(fv.typeOf(sel.X))
 	if !ok || n.Obj().Pkg() == nil {
-		return nil, false
+		return fv.callNamedFuncTypeSpec(st, call, args)
 	}
 	key := ShortPkg(n.Obj().Pkg().Path()) + "." + n.Obj().Name() + "." + sel.Sel.Name
 	sp := fv.prog.Specs.Funcs[key]
 	if sp == nil {
-		return nil, false
+		return fv.callNamedFuncTypeSpec(st, call, args)
 	}
 	sig, ok := fv.typeOf(call.Fun).Underlying().(*types.Signature)
 	if !ok {
@@ -1545,4 +1619,33 @@ func (fv *funcVerifier) declaresGhost(name string) bool {
 		}
 	}
 	return false
+}
+
+// callNamedFuncTypeSpec applies a "functype T(params)" contract to a call through
+// a value whose static type is the named function type T.
+func (fv *funcVerifier) callNamedFuncTypeSpec(st *State, call *ast.CallExpr, args []smt.Term) ([]smt.Term, bool) {
+	t := fv.typeOf(call.Fun)
+	if a, ok := t.(*types.Alias); ok {
+		t = types.Unalias(a)
+	}
+	n, ok := t.(*types.Named)
+	if !ok || n.Obj().Pkg() == nil {
+		return nil, false
+	}
+	sig, ok := n.Underlying().(*types.Signature)
+	if !ok {
+		return nil, false
+	}
+	key := ShortPkg(n.Obj().Pkg().Path()) + "." + n.Obj().Name()
+	sp := fv.prog.Specs.Funcs[key]
+	if sp == nil || !sp.Trusted {
+		return nil, false
+	}
+	names := sp.Params
+	if len(names) == 0 {
+		for i := 0; i < sig.Params().Len(); i++ {
+			names = append(names, sig.Params().At(i).Name())
+		}
+	}
+	return fv.callWithSpecSig(st, call, sig, names, key, n.Obj().Name(), n.Obj().Pkg(), sp, smt.Term{}, "", nil, args), true
 }
